@@ -311,7 +311,8 @@ def refOp (ev : Ev) (n : Nat) (G : GridGens) (m : Nat) (H : GridGens) : P RefRes
     let cs ← pCSys; pure (.grid n (intersectCons G (cgsOf cs.rows)))
   | "add_constraint" | "refine_with_constraint" => let c ← pCon; pure (.grid n (conRef G c))
   | "add_constraints" | "add_recycled_constraints" =>
-    let (sd, cs) ← pCS; pure (if sd > n then .same else .grid n (conRefLoop G cs))
+    -- 7218b6b: the system is validated first; a rejected call (`exc`) must leave the grid unchanged (judged below)
+    let (_, cs) ← pCS; pure (.grid n (cs.foldl conRef G))
   | "refine_with_constraints" => let (_, cs) ← pCS; pure (.grid n (cs.foldl conRef G))
   | "add_grid_generator" => let g ← pGRow; pure (.grid n (addGens G [genK2 g]))
   | "add_grid_generators" | "add_recycled_grid_generators" =>
@@ -569,7 +570,7 @@ def judge (ev : Ev) : List String :=
           | none => (o1, ["ref-unparsable"])
           | some (res, _) =>
             let want : Option (Nat × GridGens) × Option String :=
-              if realThrown && !(ev.op = "add_constraints" || ev.op = "add_recycled_constraints") then (some (n, G), none) else
+              if realThrown then (some (n, G), none) else
               match res with
               | .grid k K => (some (k, K), none)
               | .same => (some (n, G), none)
